@@ -115,6 +115,40 @@ SEEDS = {
                                      "range reaching 2^56 before the end of the array with a later extreme"),
  "C18-array-grow-realloc-in-place": (["C18"], "arrayEnsureCapacity_ assigns realloc's result straight to the values field: on failure the old array is leaked and the field is NULL with cardinality > 0",
                                      "allocation failure exactly at the array growth realloc"),
+ "C01-chainedsimple-decode-masks-ninth-byte": (["C01", "C04"], "varintChainedSimpleDecode64 masks every byte with 0x7f, including the ninth byte of a full-width encoding, which carries 8 payload bits",
+                                               "any value >= 2^63 decoded with the 64-bit chained-simple decoder"),
+ "C03-pfor-encode-threshold0-default": (["C03", "C16", "C06"], "varintPFOREncode treats threshold 0 as the default (95) while varintPFORComputeThreshold / varintPFORSize still treat it as the 0th percentile: the encoder writes more than varintPFORSize promised for the same arguments",
+                                        "threshold == 0 and data where most values equal the minimum but more than 5% are large"),
+ "C04-delta-zigzag-shift-31": (["C04", "C01", "C03"], "varintDeltaZigZag builds the sign mask with n >> 31 instead of n >> 63: the zig-zag map is wrong for |n| >= 2^31, the encoder writes other bytes than the format defines",
+                               "a base value or delta of magnitude 2^31 or more"),
+ "C05-tagged-class-from-truncated-offset": (["C05", "C04", "C01"], "varintTaggedPut64 chooses the 2- and 3-byte classes from the offset truncated to 32 bits: k*2^32 + v encodes like v",
+                                            "a value k*2^32 + v with k != 0 and v in 240..67823"),
+ "C06-dict-decodeinto-index-width-from-size": (["C06", "C14", "C13"], "varintDictDecodeInto (the decoder of the adaptive DICT arm) derives the index width from dictSize instead of dictSize - 1; the encoder still uses size - 1",
+                                               "exactly 256 or 65536 distinct values with DICT selected or forced"),
+ "C07-truncate-carry-flag-sticky": (["C07", "C15"], "a rounding carry out of the mantissa field now bumps the exponent, but the carry flag is declared outside the loop and never cleared: every later normal value is doubled",
+                                    "reduced precision, an element that rounds with a carry followed by other normal values"),
+ "C08-and-smaller-selector-tie": (["C08"], "varintBitmapAnd picks the smaller operand with <= and the other with <: on equal cardinalities both are vb1 and the result is a copy of vb1",
+                                  "two operands of equal cardinality, at least one not an array container"),
+ "C09-delete-zeroes-past-end": (["C09", "C13"], "PACKED_ARRAY_DELETE zeroes the vacated tail position at index len instead of len - 1: one element beyond the array is modified",
+                                "a full array followed by other data, or an exactly sized buffer"),
+ "C10-pack-level-limit-inclusive": (["C10"], "varintDimensionPack compares maxCoord > levelLimit instead of >= 2^bits: a coordinate equal to 16^k is packed at level k and its top bit spills into the row field",
+                                    "max(row, col) exactly 16^k with that value in the column"),
+ "C11-set-full-slot-early-out": (["C11"], "varintBitstreamSet stores a full-slot-width value straight into out[0] whatever the start bit",
+                                 "width == bits per slot at an offset that is not slot aligned"),
+ "C12-tagged-add-orig-width-from-value": (["C12", "C05"], "varintTaggedAdd takes the current width from the minimal width of the stored value instead of from the tag byte: on a slot stored wider than minimal the no-grow add refuses sums that fit and reports success",
+                                          "a value stored with varintTaggedPut64FixedWidth wider than minimal, no-grow add crossing a width boundary"),
+ "C13-elias-decode-check-after-store": (["C13", "C14"], "both Elias array decoders test decoded >= maxCount only after storing: the first element is written unconditionally",
+                                        "capacity 0 with a non-empty stream"),
+ "C14-dict-decode-index-room-without-width": (["C14", "C13"], "varintDictDecode compares the announced count with the bytes left instead of bytes left / indexWidth",
+                                              "more than 256 dictionary entries and an input cut so that count <= bytes left < count * indexWidth"),
+ "C15-adaptive-for-arm-passes-caller-meta": (["C15", "C16", "C06"], "the FOR arm of varintAdaptiveEncodeWith hands the meta of the caller,->encodingMeta.forMeta to varintFOREncode, which skips its analysis when meta->count == count",
+                                             "a meta object reused from an earlier FOR encode of the same count with other data"),
+ "C16-group-size-pow2-one-smear-short": (["C16", "C03"], "varintGroupSize rounds widths to a power of two with one smear step missing: a 5-byte field is sized 4... 1 byte short per such field",
+                                         "a field value in [2^32, 2^40)"),
+ "C17-group-getsize-lazy-static-table": (["C17", "C15"], "varintGroupGetSize walks the bitmap through a file-scope table built on first use with an unsynchronised check-then-build that accumulates with +=",
+                                         "first calls overlapping in two threads on groups of at least 4 fields"),
+ "C18-remove-shrink-fail-undo-keeps-count": (["C18", "C08"], "when the BITMAP->ARRAY shrink allocation fails varintBitmapRemove re-sets the bit and returns false but leaves the decremented cardinality",
+                                             "Remove taking the cardinality from 4096 to 4095 with that malloc failing"),
 }
 
 
@@ -124,14 +158,22 @@ def demo_cmd(src, prop, tree, sdir):
     lines = [l.strip().lstrip("*").strip() for l in head.splitlines()]
     cmd = ""; grab = False
     for l in lines:
+        l = re.sub(r"^\$\s+", "", l)
         if re.match(r"(\w+=\S+;\s*)?(cc|gcc|clang)\s", l) and not cmd: grab = True
         if grab:
             cmd += " " + l.rstrip("\\").strip()
             if not l.endswith("\\"): break
     cmd = cmd.strip()
     if "&&" in cmd: cmd = cmd.split("&&")[0].strip()
-    m2 = re.search(r"/tmp/w[t0-9]-[A-Za-z0-9]+", cmd)
+    mv = re.match(r"^(\w+)=(\S+);\s*", cmd)                                   # `S=/tmp/wt-C06/src; cc ... $S/x.c`
+    if mv:
+        cmd = cmd[mv.end():]
+        val = re.sub(r"/tmp/(?:w[t0-9]|s[0-9])-[A-Za-z0-9]+", tree, mv.group(2))
+        cmd = cmd.replace("${%s}" % mv.group(1), val).replace("$" + mv.group(1), val)
+    cmd = cmd.replace("${SRC}", tree + "/src").replace("$SRC", tree + "/src")   # SRC given on a line of its own
+    m2 = re.search(r"/tmp/(?:w[t0-9]|s[0-9])-[A-Za-z0-9]+", cmd) or re.search(r"/tmp/(?:w[t0-9]|s[0-9])-[A-Za-z0-9]+", head)
     wt = m2.group(0) if m2 else "/tmp/wt-%s" % prop
+    cmd = re.sub(r"-o\s+\S+", "-o " + os.path.join(tree, "_demo"), cmd)
     cmd = cmd.replace(wt + "/_seed/demo.c", os.path.join(sdir, "demo.c")).replace(wt + "/_seed/demo", os.path.join(tree, "_demo")).replace(wt, tree)
     cmd = re.sub(r"(?<![\w/])_seed/demo\.c", os.path.join(sdir, "demo.c"), cmd); cmd = re.sub(r"(?<![\w/.])src/", tree + "/src/", cmd); cmd = re.sub(r"-I ?src\b", "-I" + tree + "/src", cmd)
     if "-o " not in cmd: cmd += " -o " + os.path.join(tree, "_demo")
